@@ -79,6 +79,9 @@ func runC04(p *Prog, r *Report, tier string) {
 		r.Check(a.Held >= a.Need, "R-LOCK.guarded", construct, p.instrPos(a.In), "holds "+modeName[a.Held]+" on "+a.Lock,
 			fmt.Sprintf("needs %s on %s, holds %s", modeName[a.Need], a.Lock, modeName[a.Held]), true)
 	}
+	checkSingleSection(p, r, "R-LOCK.whole-op", cpMutex, "pkg/collector", "addTemplate", "deleteTemplateWithConds", "getTemplateIEs")
+	checkTemplateDeleters(p, r)
+	checkInfoElementImmutable(p, r, "R-OWNER.info-element")
 	// (1) owners
 	allowed := map[string]bool{"addTemplate": true, "deleteTemplateWithConds": true, "getTemplateIEs": true, "initCollectingProcess": true}
 	var mapFns []*ssa.Function
@@ -336,7 +339,13 @@ func runC04(p *Prog, r *Report, tier string) {
 			}
 		}
 	}
-	// addTemplate stores ies on all paths, from the incoming elements
+	checkTemplateReplace(p, r)
+	// data decoder: lookup failure returns before touching the buffer
+	checkLookupFirst(p, r, dds, lookupCall, mapFns)
+}
+
+// checkTemplateReplace: addTemplate stores the new field list on all paths, built from the incoming elements (imported by C01).
+func checkTemplateReplace(p *Prog, r *Report) {
 	if at := p.Fn("(*pkg/collector.CollectingProcess).addTemplate"); at == nil {
 		r.Undecided("R-GATE.replace", "anchor: addTemplate", "pkg/collector/process.go", "function not found")
 	} else {
@@ -372,7 +381,9 @@ func runC04(p *Prog, r *Report, tier string) {
 			r.OK("R-GATE.replace", fnKey(at)+": field list replaced unconditionally", p.pos(at.Pos()), "tpl.ies is stored on every path, from the incoming elements' GetInfoElement()", true)
 		}
 	}
-	// data decoder: lookup failure returns before touching the buffer
+}
+
+func checkLookupFirst(p *Prog, r *Report, dds *ssa.Function, lookupCall *ssa.Call, mapFns []*ssa.Function) {
 	if lookupCall != nil {
 		okErr := false
 		for _, e := range extractOf(lookupCall, 1) {
@@ -469,4 +480,48 @@ func derivesFromParam(v ssa.Value, pa *ssa.Parameter, depth int) bool {
 		return derivesFromParam(x.X, pa, depth+1)
 	}
 	return false
+}
+
+// checkTemplateDeleters: a stored template is removed only by the template decoder's invalidation and by the expiry
+// callback; nothing else (e.g. a failed data set) may forget the most recent valid template.
+func checkTemplateDeleters(p *Prog, r *Report) {
+	g := p.CallGraph()
+	for _, name := range []string{"deleteTemplate", "deleteTemplateWithConds"} {
+		f := p.Fn("(*pkg/collector.CollectingProcess)." + name)
+		if f == nil {
+			continue
+		}
+		for _, cs := range g.callers[f] {
+			k := fnKey(cs.Parent())
+			ok := strings.HasSuffix(k, ".decodeTemplateSet") || strings.HasSuffix(k, ".deleteTemplate") || strings.Contains(k, ".addTemplate$")
+			r.Check(ok, "R-OWNER.template-delete", k+": calls "+name, p.instrPos(cs), "template decoder invalidation, the delete wrapper or the expiry callback",
+				"a template is deleted from a place other than the template decoder's error path and the expiry callback: a valid template can be forgotten although no template message replaced or invalidated it", true)
+		}
+	}
+}
+
+// checkInfoElementImmutable: fields of entities.InfoElement are written only into fresh allocations. Registry entries
+// are shared by every template of every observation domain; writing through such a pointer makes one template
+// influence all others.
+func checkInfoElementImmutable(p *Prog, r *Report, rule string) {
+	n := 0
+	for _, f := range p.RepoFns {
+		eachInstr(f, func(in ssa.Instruction) {
+			st, ok := in.(*ssa.Store)
+			if !ok {
+				return
+			}
+			tn, fn, base, ok := fieldOf(st.Addr)
+			if !ok || tn != "pkg/entities.InfoElement" {
+				return
+			}
+			n++
+			_, fresh := base.(*ssa.Alloc)
+			r.Check(fresh, rule, fmt.Sprintf("%s: writes InfoElement.%s", fnKey(f), fn), p.instrPos(in), "into a freshly allocated element",
+				"a field of an existing InfoElement is overwritten: registry elements are shared by all templates (every observation domain, every template id, every process), so one template changes how the data of others is decoded", true)
+		})
+	}
+	if n == 0 {
+		r.Undecided(rule, "anchor: stores to InfoElement fields", "pkg/entities/ie.go", "none found (NewInfoElement should initialise a fresh element)")
+	}
 }
